@@ -665,7 +665,12 @@ StepObs exec_op(const Op& op, Hist<U>& h) {
       std::string_view in = a(0) ? std::string_view(*a(0)) : std::string_view();
       h.cur.reset();
       if (a(1)) {
+        // sub bit 0: the base object was obtained earlier, while no limit was configured (it may be longer than the
+        // current limit); the parse of the input against it still runs under the current limit
+        const uint32_t cur_limit = (op.sub & 1) ? ada::get_max_input_length() : 0;
+        if (op.sub & 1) ada::set_max_input_length(0xFFFFFFFFu);
         auto b = ada::parse<U>(*a(1));
+        if (op.sub & 1) ada::set_max_input_length(cur_limit);
         if (!b) {
           r.status = 'F';
           r.text = "F|base";
